@@ -147,12 +147,30 @@ func runC14(r *core.Run) {
 			return core.OK("panics", true)
 		})
 
+	bufferReuse(r, append(enum.AllStrings("ACGT", 3), "ATGGCATGG", "ATGGCTTGG", "atgGCAtggAAA", "TTTTTTTTTTTT", "ATGNCA"), []string{"Translate", "TranslateReadingFrames"},
+		func(fn string, in []byte) string {
+			if fn == "Translate" {
+				return string(sequtil.Translate(nil, in))
+			}
+			f := sequtil.TranslateReadingFrames(in)
+			return string(f[0]) + "|" + string(f[1]) + "|" + string(f[2])
+		})
+
 	core.Clause(r, "dst-contents", core.Opts{Rule: dstRule},
 		genDstCases([]string{"", "ATG", "atgGCAtggAAA", "ATGGCATGGAAATAGCCCGGGTTTACGTGA", "ATGNCA", "NNN", "ATGGCATGGAAN", "AT\x00", "ATGGCATGGAAATAGCCCGGGTTTACGTG-", "AT", "ATGG"}),
 		checkDstContract("Translate", sequtil.Translate, ref.Translate))
 
-	special := []byte{'A', 'C', 'G', 'T', 'a', 'c', 'g', 't', 0x00, 0x01, ' ', '-', 'N', 'n', 'U', 'u', '@', '[', '`', '{', 0x7f, 0x80, 0xc1, 0xe1, 0xff, '*', 'R', 'X', '0', '\n', '.', '?'}
-	r.Bound("codon-space", fmt.Sprintf("every codon over %d selected bytes (the 8 bases and 24 invalid ones incl. 0x00, N, U, 0x80.., 0xff) = %d codons, as the only codon, as the first of two and as the second of two%s", len(special), len(special)*len(special)*len(special), core.Pick(r, "", "; thorough: ALL 256^3 codons as the only codon")))
+	// every byte that a case fold, a bit mask or an offset could turn into a base: all bytes sharing the
+	// low 5 bits with A, C, G or T (0x01/0x21/0x41/0x61/0x81/0xA1/0xC1/0xE1 for A, ...), plus assorted others
+	var special []byte
+	for b := 0; b < 256; b++ {
+		switch b & 0x1F {
+		case 'A' & 0x1F, 'C' & 0x1F, 'G' & 0x1F, 'T' & 0x1F:
+			special = append(special, byte(b))
+		}
+	}
+	special = append(special, 0x00, ' ', '-', 'N', 'n', 'U', 'u', '@', '[', '`', '{', 0x7f, 0x80, 0xff, '*', 'R', 'X', '0', '\n', '.', '?')
+	r.Bound("codon-space", fmt.Sprintf("every codon over %d selected bytes (all 32 bytes that share their low 5 bits with a base, i.e. everything a case fold or mask could turn into a base, and 21 others incl. 0x00, N, U, 0x80, 0xff) = %d codons, as the only codon, as the first of two and as the second of two%s", len(special), len(special)*len(special)*len(special), core.Pick(r, "", "; thorough: ALL 256^3 codons as the only codon")))
 	core.Clause(r, "codon-space", core.Opts{Rule: "whole codons, not single positions: Translate panics iff some byte of the codon is outside aAcCgGtT, else gives the reference amino acid; also with a valid codon before or after it; non-trivial = all"},
 		func(emit func(c14Bad) bool) {
 			for _, a := range special {
